@@ -1199,7 +1199,203 @@ static void case_clone(uint64_t idx)
 	if (idx % 97 == 13) vf_sample("clone: %s", ctx);
 }
 
-uint64_t vf_cases(void) { return n_grid() + n_hist() + n_loc() + n_clone(); }
+
+/* ------------------------------------------------ node_move merges by name */
+/*
+ * mpt_node_move(&from, dst) merges a source list into a target list: a source
+ * node whose name no target node carries is moved (appended), one whose name is
+ * present stays and hands its children over (merged the same way when the
+ * target node has children, re-parented otherwise).  "Same name" is decided on
+ * the stored name: kind, length and every byte - also behind an embedded NUL,
+ * for binary and for absent names.  Model: the same procedure on lists of
+ * (kind, bytes) names.
+ */
+#define MMAXN 24
+#define MSRC MMAXN
+#define MDST (MMAXN + 1)
+typedef struct { MPT_STRUCT(node) *nd; int state; size_t n; uint8_t name[340]; int var; const void *ext; } mnode;
+static mnode MN[MMAXN];
+static int nmn;
+static int mlist[MMAXN + 2][MMAXN], mcount[MMAXN + 2];
+static long mv_merged, mv_merged_nul, mv_apart_prefix, mv_unnamed_merged, mv_moved;
+static int m_eq(const mnode *a, const mnode *b)
+{
+	int ta = a->state == SText, tb = b->state == SText;
+	return ta == tb && a->n == b->n && (!a->n || !memcmp(a->name, b->name, a->n));
+}
+static void m_append(int list, int node) { mlist[list][mcount[list]++] = node; }
+static void m_remove(int list, int node)
+{
+	int j = 0;
+	for (int i = 0; i < mcount[list]; i++) if (mlist[list][i] != node) mlist[list][j++] = mlist[list][i];
+	mcount[list] = j;
+}
+static size_t m_move(int src, int dst)
+{
+	size_t count = 0;
+	int order[MMAXN], n = mcount[src];
+	memcpy(order, mlist[src], n * sizeof(int));
+	for (int i = 0; i < n; i++) {
+		int s = order[i], d = -1;
+		for (int j = 0; j < mcount[dst]; j++) if (m_eq(&MN[s], &MN[mlist[dst][j]])) { d = mlist[dst][j]; break; }
+		if (d < 0) {
+			/* near misses the name comparison has to tell apart */
+			for (int j = 0; j < mcount[dst]; j++) {
+				const mnode *t = &MN[mlist[dst][j]], *a = &MN[s];
+				const mnode *lo = a->n > t->n ? t : a, *hi = a->n > t->n ? a : t;
+				if (a->state == SText && t->state == SText && lo->n < hi->n && !memcmp(lo->name, hi->name, lo->n) && !hi->name[lo->n]) { mv_apart_prefix++; break; }
+			}
+			m_remove(src, s); m_append(dst, s); count++; mv_moved++;
+			continue;
+		}
+		mv_merged++;
+		if (MN[s].n && memchr(MN[s].name, 0, MN[s].n)) mv_merged_nul++;
+		if (!MN[s].n && MN[s].state != SText) mv_unnamed_merged++;
+		if (!mcount[s]) continue;
+		if (mcount[d]) count += m_move(s, d);
+		else {
+			for (int j = 0; j < mcount[s]; j++) { m_append(d, mlist[s][j]); count++; }
+			mcount[s] = 0;
+		}
+	}
+	return count;
+}
+static int m_new(vf_rng *r, const mnode *pool, int npool, size_t nodesize_hint)
+{
+	static const size_t sizes[] = { 0, 0, 60, 200 };
+	mnode *m = &MN[nmn];
+	int v = vf_chance(r, 1, 2) ? (int) vf_below(r, 4) : (int) vf_below(r, npool);
+	*m = pool[v];
+	m->var = v;
+	vf_at("mpt_node_new"); vf_count("mpt_node_new", 1);
+	m->nd = mpt_node_new(vf_chance(r, 1, 4) ? nodesize_hint : sizes[vf_below(r, 4)]);
+	VF_CHECK(m->nd != 0, "model:node_new:null", "mpt_node_new returned NULL");
+	vf_at("mpt_identifier_set"); vf_count("mpt_identifier_set", 1);
+	if (m->state == SText) {
+		char *src = vf_xalloc(m->n);
+		if (m->n) memcpy(src, m->name, m->n);
+		VF_CHECK(mpt_identifier_set(&m->nd->ident, src, (int) m->n) != 0, "model:set:refused", "set(node, text %zu bytes) returned NULL", m->n);
+		vf_xfree(src, m->n);
+	} else if (m->state == SBinary) {
+		uint8_t *d = mpt_identifier_set(&m->nd->ident, 0, (int) m->n);
+		VF_CHECK(d != 0, "model:set-binary:refused", "set(node, NULL, %zu) returned NULL", m->n);
+		memcpy(d, m->name, m->n);
+	}
+	mcount[nmn] = 0;
+	return nmn++;
+}
+static void m_link(int list, MPT_STRUCT(node) *parent)
+{
+	MPT_STRUCT(node) *prev = 0;
+	for (int i = 0; i < mcount[list]; i++) {
+		MPT_STRUCT(node) *n = MN[mlist[list][i]].nd;
+		n->parent = parent; n->prev = prev; n->next = 0;
+		if (prev) prev->next = n; else if (parent) parent->children = n;
+		prev = n;
+	}
+}
+static int m_visited[MMAXN];
+static void m_verify_list(int list, const MPT_STRUCT(node) *first, const MPT_STRUCT(node) *parent, const char *ctx, const char *lname)
+{
+	const MPT_STRUCT(node) *prev = 0, *c = first;
+	for (int i = 0; i < mcount[list]; i++, prev = c, c = c->next) {
+		int want = mlist[list][i], got = -1;
+		VF_CHECK(c != 0, "model:node_move:node-lost", "%s: %s ends after %d nodes, model has %d (node %d '%s..' missing)", ctx, lname, i, mcount[list], want, vf_hex(hx1, 40, MN[want].name, MN[want].n > 12 ? 12 : MN[want].n));
+		for (int j = 0; j < nmn; j++) if (MN[j].nd == c) got = j;
+		VF_CHECK(got >= 0, "model:node_move:foreign-node", "%s: %s holds a node that is not part of the case", ctx, lname);
+		if (got != want) {
+			int inlist = 0;
+			for (int j = 0; j < mcount[list]; j++) if (mlist[list][j] == got) inlist = 1;
+			vf_fail(inlist ? "model:node_move:order" : "model:node_move:wrong-place", "%s: position %d of %s holds node %d (name variant %d), model expects node %d (variant %d)", ctx, i, lname, got, MN[got].var, want, MN[want].var);
+		}
+		VF_CHECK(!m_visited[got]++, "model:node_move:node-twice", "%s: node %d is reachable twice", ctx, got);
+		VF_CHECK(c->prev == prev && c->parent == parent, "model:node_move:links", "%s: node %d in %s: prev/parent links do not match its place", ctx, got, lname);
+		char sub[48];
+		snprintf(sub, sizeof(sub), "children of node %d", got);
+		m_verify_list(got, c->children, c, ctx, sub);
+	}
+	VF_CHECK(c == 0, "model:node_move:extra-node", "%s: %s has more nodes than the model (%d)", ctx, lname, mcount[list]);
+}
+static uint64_t n_move(void) { return vf_thorough ? 150000 : 8000; }
+static void case_move(vf_rng *r)
+{
+	static mnode pool[12];
+	static const size_t lens[] = { 5, 5, 4, 19, 20, 21, 22, 84, 85, 213 };
+	size_t n = lens[vf_below(r, 10)], k = vf_chance(r, 1, 2) ? 2 : 1 + vf_below(r, (uint32_t) n - 2);
+	char ctx[220];
+	int np = 0;
+	nmn = 0;
+	memset(mcount, 0, sizeof(mcount));
+	memset(m_visited, 0, sizeof(m_visited));
+	/* name pool: 0 text with embedded NUL, 1 its C-string prefix, 2 same up to the NUL but other tail, 3 plain text of that length,
+	 * 4 one byte longer, 5 absent, 6 empty text, 7 binary with the bytes of 0, 8 binary prefix, 9 unrelated */
+	for (int v = 0; v < 10; v++) { pool[v].state = SText; pool[v].n = n; for (size_t i = 0; i < n + 1; i++) pool[v].name[i] = (uint8_t) ('a' + vf_below(r, 26)); }
+	for (int v = 1; v < 9; v++) memcpy(pool[v].name, pool[0].name, n + 1);
+	pool[0].name[k] = 0;
+	pool[1].n = k;
+	pool[2].name[k] = 0; pool[2].name[n - 1] ^= 0x01;
+	pool[4].n = n + 1;
+	pool[5].state = SUnset; pool[5].n = 0;
+	pool[6].n = 0;
+	pool[7].state = SBinary; pool[7].name[k] = 0;
+	pool[8].state = SBinary; pool[8].n = k;
+	pool[9].n = 2;
+	np = 10;
+	vf_fp_u64(0x30fe); vf_fp(pool[0].name, n); vf_fp_u64(k);
+	/* trees */
+	for (int side = 0; side < 2; side++) {
+		int top = 1 + vf_below(r, 4);
+		for (int i = 0; i < top && nmn < (side ? MMAXN - 6 : 10); i++) {
+			int t = m_new(r, pool, np, n + 1);
+			m_append(side ? MDST : MSRC, t);
+			int nc = vf_chance(r, 1, 3) ? 0 : 1 + vf_below(r, 3);
+			for (int c = 0; c < nc && nmn < MMAXN - 3; c++) {
+				int ch = m_new(r, pool, np, n + 1);
+				m_append(t, ch);
+				if (vf_chance(r, 1, 3) && nmn < MMAXN - 2) m_append(ch, m_new(r, pool, np, n + 1));
+			}
+		}
+	}
+	for (int i = 0; i < nmn; i++) { m_link(i, MN[i].nd); vf_fp_u64((uint64_t) MN[i].var << 8 | mcount[i]); }
+	m_link(MSRC, 0); m_link(MDST, 0);
+	for (int i = 0; i < nmn; i++) MN[i].ext = ext_ptr(&MN[i].nd->ident);
+	snprintf(ctx, sizeof(ctx), "node_move: %d source and %d target top nodes, %d nodes in all, names from a %zu byte name with NUL at %zu", mcount[MSRC], mcount[MDST], nmn, n, k);
+	if (vf_logging) {
+		for (int i = 0; i < nmn; i++) vf_log("node %d: name variant %d, %d children", i, MN[i].var, mcount[i]);
+	}
+	size_t heap0 = HEAP_IN_USE();
+	long merged0 = mv_merged, nul0 = mv_merged_nul, apart0 = mv_apart_prefix, un0 = mv_unnamed_merged, moved0 = mv_moved;
+	if (!mcount[MSRC] || !mcount[MDST]) vf_inconclusive("harness: empty list in node_move case");
+	MPT_STRUCT(node) *from = MN[mlist[MSRC][0]].nd, *dst = MN[mlist[MDST][0]].nd;   /* heads before the call */
+	size_t want = m_move(MSRC, MDST);
+	vf_at("mpt_node_move"); vf_count("mpt_node_move", 1);
+	size_t got = mpt_node_move(&from, dst);
+	VF_CHECK(got == want, "model:node_move:count", "%s: returned %zu, model moves %zu nodes", ctx, got, want);
+	VF_CHECK(HEAP_IN_USE() == heap0, "model:node_move:allocation", "%s: allocator bytes in use changed by %zd during the call", ctx, (ssize_t) (HEAP_IN_USE() - heap0));
+	VF_CHECK(from == (mcount[MSRC] ? MN[mlist[MSRC][0]].nd : 0), "model:node_move:source-head", "%s: source list head after the call does not match the model (%d nodes stay)", ctx, mcount[MSRC]);
+	m_verify_list(MSRC, from, 0, ctx, "source list");
+	m_verify_list(MDST, dst, 0, ctx, "target list");
+	for (int i = 0; i < nmn; i++) {
+		const MPT_STRUCT(identifier) *id = &MN[i].nd->ident;
+		size_t len = MN[i].state == SText ? MN[i].n + 1 : MN[i].n;
+		VF_CHECK(m_visited[i] == 1, "model:node_move:node-lost", "%s: node %d is no longer reachable", ctx, i);
+		VF_CHECK(id->_len == len && (!MN[i].n || !memcmp(mpt_identifier_data(id), MN[i].name, MN[i].n)) && ext_ptr(id) == MN[i].ext, "model:node_move:name-modified", "%s: name of node %d changed", ctx, i);
+	}
+	vf_count("move:moved", mv_moved - moved0);
+	vf_count("move:merged", mv_merged - merged0);
+	vf_count("move:merged-name-with-embedded-nul", mv_merged_nul - nul0);
+	vf_count("move:kept-apart-from-c-string-prefix", mv_apart_prefix - apart0);
+	vf_count("move:merged-unnamed", mv_unnamed_merged - un0);
+	vf_count("monitor:move-structure-verified", 1);
+	if (mv_merged_nul - nul0 || mv_apart_prefix - apart0 || mv_unnamed_merged - un0) vf_nontrivial();
+	/* release audit */
+	cn_destroy_list(from, ctx);
+	cn_destroy_list(dst, ctx);
+	for (int i = 0; i < nmn; i++) check_released("node_destroy", MN[i].ext, 0, ctx);
+	vf_sample("%s: %zu moved", ctx, want);
+}
+
+uint64_t vf_cases(void) { return n_grid() + n_hist() + n_loc() + n_clone() + n_move(); }
 
 void vf_case(uint64_t idx, vf_rng *r)
 {
@@ -1209,5 +1405,7 @@ void vf_case(uint64_t idx, vf_rng *r)
 	if (idx < n_hist()) { case_history(r); return; }
 	idx -= n_hist();
 	if (idx < n_loc()) { case_locate(r); return; }
-	case_clone(idx - n_loc());
+	idx -= n_loc();
+	if (idx < n_clone()) { case_clone(idx); return; }
+	case_move(r);
 }
